@@ -1,8 +1,11 @@
 import LoguruModel.Conc.Data
 import LoguruModel.Conc.Fifo
+import LoguruModel.Conc.Exact
+import LoguruModel.Conc.Liveness
 import LoguruModel.Conc.ActivationLemmas
 import LoguruModel.Conc.LevelsLemmas
 import LoguruModel.Generated.ConcShape
+import LoguruModel.Generated.ConcScope
 /-
 C02 – property theorems about the interleaving model `Conc.step` (for EVERY schedule: any number of
 threads, any operations, any length).  Real traces are replayed on `Conc.step` by drivers/C02.lean.
@@ -103,6 +106,83 @@ theorem registered_never_seen_stopped (sched : List (Tid × Lab)) (t : Tid) (m :
   have := (hd.g7 h hr).1
   simp_all
 
+/-! ### exactly once for stable handlers; every call returns under fairness -/
+
+/-- EXACTLY ONCE IF STABLE (at-least-once half; `per_thread_fifo_at_most_once` and `at_most_once_per_call` are the
+at-most-once half).  When a logging call of thread `t` with message `m` is about to return, every handler `h`
+that had been published when the call BEGAN and is STILL registered (so: registered before the call began and
+not removed until it returns) has received the message – the newest thing `t` wrote to the sink of `h` is `m` –
+unless the call skipped it, which the code does exactly when the handler's threshold or filter rejects the
+record (the model's free choice `skip`; that logic is C01's).  For every schedule. -/
+theorem exactly_once_if_stable (sched : List (Tid × Lab)) (t : Tid) (m : Nat) (wr : List Hid) (h : Hid)
+    (hp : (run {} sched).pc t = .lL m [] wr)
+    (hbefore : h ∈ (run {} sched).pubAtStart t) (hstill : h ∈ (run {} sched).reg) :
+    (h ∈ wr ∧ ∃ L', seqOf (run {} sched) t h = m :: L') ∨ h ∈ (run {} sched).skipped t := by
+  have hx := exactInv_run sched
+  have hd := (inv_run sched).2
+  have hf := fifoInv_run sched
+  have hsnap : hasSnap ((run {} sched).pc t) = true := by rw [hp]; rfl
+  have hin := hx.x3 t hsnap h hbefore hstill
+  have hpart := (hx.x1 t hsnap h).mp hin
+  rw [hp] at hpart
+  simp only [wrOf, pend] at hpart
+  rcases hpart with a | a | a | a
+  · left
+    refine ⟨a, ?_⟩
+    obtain ⟨L', hL, _⟩ := hf.o1 t h m (by rw [hp]; rfl) (by rw [hp]; simpa [written] using a)
+    exact ⟨L', hL⟩
+  · exact Or.inr a
+  · exfalso
+    have := hx.x2 t hsnap h a
+    rw [(hd.g7 h hstill).1] at this; cases this
+  · cases a
+
+/-- the snapshot a call iterates is partitioned into written / skipped / found stopped / still to visit, and a
+handler is found stopped only if it has been unpublished by a remove() -/
+theorem snapshot_partition (sched : List (Tid × Lab)) (t : Tid) (hs : hasSnap ((run {} sched).pc t) = true) (k : Hid) :
+    (k ∈ (run {} sched).snap t ↔ (k ∈ wrOf ((run {} sched).pc t) ∨ k ∈ (run {} sched).skipped t ∨
+      k ∈ (run {} sched).gone t ∨ k ∈ pend ((run {} sched).pc t))) ∧
+    (k ∈ (run {} sched).gone t → k ∉ (run {} sched).reg) := by
+  have hx := exactInv_run sched
+  refine ⟨hx.x1 t hs k, ?_⟩
+  intro hg hr
+  have := hx.x2 t hs k hg
+  rw [((inv_run sched).2.g7 k hr).1] at this; cases this
+
+/-- non-vacuity of `exactly_once_if_stable`: handler 0 is stable and written, handler 1 is skipped -/
+example :
+    let sched : List (Tid × Lab) := [
+      (0, .start .add), (0, .acqCore), (0, .rCount 0), (0, .rCount 0), (0, .wCount 1), (0, .relCore),
+      (0, .acqCore), (0, .rReg []), (0, .wReg [0]), (0, .relCore),
+      (0, .start .add), (0, .acqCore), (0, .rCount 1), (0, .rCount 1), (0, .wCount 2), (0, .relCore),
+      (0, .acqCore), (0, .rReg [0]), (0, .wReg [0, 1]), (0, .relCore),
+      (1, .start (.log 7)), (1, .rReg [0, 1]), (1, .rReg [0, 1]), (1, .acqH 0), (1, .rStopped 0 false),
+      (1, .wBegin 0), (1, .wEnd 0), (1, .relH 0), (1, .skip 1)]
+    let s := run {} sched
+    s.pc 1 = .lL 7 [] [0] ∧ s.pubAtStart 1 = [1, 0] ∧ s.reg = [0, 1] ∧ s.skipped 1 = [1] ∧ seqOf s 1 0 = [7] := by
+  decide
+
+/-- every transition of a thread in the middle of an operation strictly decreases the (phase, remaining) measure
+of its program counter, and no other thread's transition changes it: operations are finite programs -/
+theorem operation_steps_decrease (s s' : St) (t u : Tid) (lab : Lab) (hs : step s t lab = some s') :
+    (s.pc t ≠ .idle → lexLt (mu (s'.pc t)) (mu (s.pc t))) ∧ (u ≠ t → s'.pc u = s.pc u) :=
+  ⟨fun hmid => step_decreases hs hmid, fun hu => step_frame hs hu⟩
+
+/-- EVERY CALL RETURNS UNDER FAIRNESS.  Hypothesis, stated explicitly: in the infinite execution `e`, whenever
+thread `t` is in the middle of an operation it is eventually given another enabled transition (the scheduler is
+fair to it and the lock it waits for is eventually granted – `no_deadlock` says some thread can always move).
+Conclusion: from every point of the execution `t` reaches `idle` again: its log / add / remove / complete /
+level / enable / disable / fork call returns.  Together with `exactly_once_if_stable` (a statement about the
+return point) this gives delivery exactly once to every stable admitting handler. -/
+theorem every_call_returns_under_fairness (e : Exec) (t : Tid)
+    (fair : ∀ i, (e.σ i).pc t ≠ .idle → ∃ j, i ≤ j ∧ (e.τ j).1 = t) :
+    ∀ i, ∃ j, i ≤ j ∧ (e.σ j).pc t = .idle :=
+  fair_thread_completes e t fair
+
+/-- non-vacuity: an infinite fair execution exists (thread 0 calling level() for ever) and satisfies the hypothesis -/
+example : ∃ j, 1 ≤ j ∧ (demoExec.σ j).pc 0 = .idle :=
+  every_call_returns_under_fairness demoExec 0 demo_fair 1
+
 /-! ### deadlock freedom -/
 
 /-- thread `t` is waiting for a lock that somebody holds -/
@@ -142,6 +222,14 @@ theorem progress (s : St) (t : Tid) (hnd : s.pub.Nodup) (hmid : s.pc t ≠ .idle
     | nil => exact ⟨.relCore, by simp [step, hp]⟩
     | cons h g => exact ⟨.relH h, by simp [step, hp]⟩
   | o1 => exact ⟨.relCore, by simp [step, hp]⟩
+  | o2 => exact ⟨.relCore, by simp [step, hp]⟩
+  | c0 => exact ⟨.acqCore, by simp [step, hp, hc (by rw [hp]; rfl)]⟩
+  | c1 => exact ⟨.rReg s.reg, by simp [step, hp]⟩
+  | cL todo =>
+    cases todo with
+    | nil => exact ⟨.relCore, by simp [step, hp]⟩
+    | cons h td => exact ⟨.acqH h, by simp [step, hp, hh h (by rw [hp]; rfl)]⟩
+  | cH h todo => exact ⟨.relH h, by simp [step, hp]⟩
   | r1 tgt =>
     cases tgt with
     | none => exact ⟨.rReg s.reg, by simp [step, hp]⟩
@@ -271,6 +359,83 @@ example :
       (1, .acqH 0), (1, .rStopped 0 true), (1, .relH 0), (1, .early)]
     let s := run {} sched
     s.stopDone = [0] ∧ s.reg = [] ∧ (s.hs 0).stops = 1 ∧ s.sink 0 = [] ∧ s.pc 1 = .idle ∧ s.allocated = [0] := by
+  decide
+
+/-! ### complete() inside the same system, and where shared state is written -/
+
+/-- complete() only ever takes the lock of a handler that is registered and live at that very moment (it
+holds the core lock, so no remove() can intervene): it never asks a stopped sink for its tasks -/
+theorem complete_visits_only_live_registered (sched : List (Tid × Lab)) (t : Tid) (h : Hid) (todo : List Hid)
+    (hp : (run {} sched).pc t = .cH h todo) :
+    h ∈ (run {} sched).reg ∧ ((run {} sched).hs h).stopped = false ∧ ((run {} sched).hs h).lock = some t ∧
+    (run {} sched).coreLock = some t ∧ ∀ k ∈ todo, k ∈ (run {} sched).reg := by
+  have hl := (inv_run sched).1
+  have hd := (inv_run sched).2
+  have := hd.pcs t; rw [hp] at this; simp only [pcInv] at this
+  exact ⟨this.1, (hd.g7 h this.1).1, hl.h1 t h (by rw [hp]; simp [heldH]), hl.c1 t (by rw [hp]; rfl), this.2.2.1⟩
+
+/-- while a thread is inside complete()'s critical section no sink write to the handler it is visiting is in
+progress (the sink is asked for its tasks under the handler's own lock) -/
+theorem complete_excludes_writers (sched : List (Tid × Lab)) (t u : Tid) (h : Hid) (todo td wr : List Hid) (m : Nat)
+    (hp : (run {} sched).pc t = .cH h todo) : (run {} sched).pc u ≠ .e3 m h td wr := by
+  intro hu
+  have hl := (inv_run sched).1
+  have e := h_excl hl (x := h) (t := t) (u := u) (by rw [hp]; simp [heldH]) (by rw [hu]; simp [heldH])
+  subst e; rw [hp] at hu; cases hu
+
+/-- SHARED WRITES ONLY UNDER THE CORE LOCK: whatever thread changes `handlers_count` or the published registry
+holds the core lock while it does so (model side of `core_writes_under_lock_of_source`) -/
+theorem shared_writes_hold_core_lock (s s' : St) (t : Tid) (lab : Lab) (hs : step s t lab = some s')
+    (hw : s'.count ≠ s.count ∨ s'.reg ≠ s.reg) : holdsCore (s.pc t) = true ∧ s.coreLock = s'.coreLock := by
+  unfold step at hs
+  split at hs <;> (try (simp only [reduceCtorEq] at hs; done)) <;> (repeat' split at hs) <;>
+    (try (simp only [reduceCtorEq] at hs; done)) <;>
+    (simp only [Option.some.injEq] at hs; subst hs) <;>
+    (first
+      | (exfalso; simp [setPc] at hw; done)
+      | (simp_all [holdsCore, setPc]; done))
+
+/-- …hence, in every reachable state, the thread that is about to write them is THE owner of the core lock -/
+theorem shared_writer_owns_core_lock (sched : List (Tid × Lab)) (t : Tid) (lab : Lab) (s' : St)
+    (hs : step (run {} sched) t lab = some s')
+    (hw : s'.count ≠ (run {} sched).count ∨ s'.reg ≠ (run {} sched).reg) :
+    (run {} sched).coreLock = some t :=
+  (inv_run sched).1.c1 t (shared_writes_hold_core_lock _ _ t lab hs hw).1
+
+/-- tie G (regenerated from the AST of `Logger` and `Handler`): no method of `Logger` other than the lock-free
+reader `_log` stores into the Core outside `with core.lock`; `_log` stores only into its two caches; no
+published registry is mutated in place; `add` writes exactly `handlers_count`, `min_level`, `handlers` and
+`remove` exactly `min_level`, `handlers` – the writes the model's `add`/`remove` perform under the lock -/
+theorem core_writes_under_lock_of_source :
+    Conc.ScopeGen.unlockedCoreWrites = [] ∧
+    Conc.ScopeGen.logUnlockedWrites = ["enabled[]", "levels_lookup[]"] ∧
+    Conc.ScopeGen.registryMutatedInPlace = false ∧
+    (Conc.ScopeGen.lockedCoreWrites.filter (fun w => w.1 == "add")).map (·.2) =
+      ["handlers", "handlers_count", "min_level"] ∧
+    (Conc.ScopeGen.lockedCoreWrites.filter (fun w => w.1 == "remove")).map (·.2) = ["handlers", "min_level"] := by
+  decide
+
+/-- tie G: `complete()` reads the registry once and visits the handlers under the core lock, awaiting nothing
+there; `Handler.tasks_to_complete`, `Handler.stop` and `Handler.emit` work under `_protected_lock`, whose shape
+(marker, lock around the yield, reset in `finally`) is the modelled one -/
+theorem complete_and_handler_lock_shape_of_source :
+    Conc.ScopeGen.completeReadsRegistryUnderLock = true ∧ Conc.ScopeGen.completeVisitsUnderLock = true ∧
+    Conc.ScopeGen.completeAwaitsNothingUnderLock = true ∧ Conc.ScopeGen.tasksUnderHandlerLock = true ∧
+    Conc.ScopeGen.stopUnderHandlerLock = true ∧ Conc.ScopeGen.emitWritesUnderHandlerLock = true ∧
+    Conc.ScopeGen.protectedLockShape = true := by decide
+
+/-- non-vacuity: complete() of thread 2 waits for the handler lock held by a writer (thread 1), then visits the
+handler; a remove() started meanwhile (thread 3) waits for the core lock -/
+example :
+    let sched : List (Tid × Lab) := [
+      (0, .start .add), (0, .acqCore), (0, .rCount 0), (0, .rCount 0), (0, .wCount 1), (0, .relCore),
+      (0, .acqCore), (0, .rReg []), (0, .wReg [0]), (0, .relCore),
+      (1, .start (.log 7)), (1, .rReg [0]), (1, .rReg [0]), (1, .acqH 0), (1, .rStopped 0 false), (1, .wBegin 0),
+      (2, .start .complete), (2, .acqCore), (2, .rReg [0]), (2, .acqH 0),          -- blocked: skipped
+      (3, .start (.remove 0)), (3, .acqCore),                                       -- blocked: skipped
+      (1, .wEnd 0), (1, .relH 0), (2, .acqH 0)]
+    let s := run {} sched
+    s.pc 2 = .cH 0 [] ∧ s.coreLock = some 2 ∧ (s.hs 0).lock = some 2 ∧ s.pc 3 = .r0 (some 0) ∧ s.sink 0 = [(1, 7)] := by
   decide
 
 /-! ### enable()/disable(): visibility after return (model `Conc/Activation.lean`) -/
